@@ -219,6 +219,8 @@ func (e *e2e) populate(c collID, members [][]byte) error {
 				break
 			}
 		}
+	case "json":
+		_, err = e.db.JSet(e.tick(), raw, []byte(""), []byte(fmt.Sprintf(`{"m":"%x","n":%d}`, members[0], len(members))))
 	}
 	if err != nil {
 		return err
@@ -305,6 +307,12 @@ func (e *e2e) logical(c collID) string {
 			p = append(p, H(v))
 		}
 		return strings.Join(p, ",")
+	case "json":
+		vs, err := e.db.JGet(raw, []byte(""))
+		if err != nil {
+			return "err:" + err.Error()
+		}
+		return strings.Join(vs, ",")
 	case "bitmap":
 		n, err := e.db.BitCountV2(raw, 0, -1)
 		if err != nil {
@@ -330,7 +338,8 @@ func emptyLogical(typ string) []string {
 	return []string{""}
 }
 
-var dataTypesOfTableDelete = map[string]bool{"kv": true, "hash": true, "list": true, "set": true, "zset": true}
+// a whole-table delete addresses every key of the table, of every data type
+var dataTypesOfTableDelete = map[string]bool{"kv": true, "hash": true, "list": true, "set": true, "zset": true, "bitmap": true, "json": true}
 
 func (e *e2e) pickMembers(n int, forceEmpty bool) [][]byte {
 	seen := map[string]bool{}
@@ -410,7 +419,7 @@ func scenario(seed int64, policy string, idx int, emit func(e2eRec)) {
 			rks = append(rks, k)
 		}
 	}
-	types := []string{"kv", "hash", "set", "zset", "list", "bitmap"}
+	types := []string{"kv", "hash", "set", "zset", "list", "bitmap", "json"}
 	for _, t := range tabs {
 		for _, k := range rks {
 			hasKV := false
@@ -542,6 +551,9 @@ func scenario(seed int64, policy string, idx int, emit func(e2eRec)) {
 		case c.Typ == "bitmap":
 			rec.Op = "BitClear"
 			_, opErr = e.db.BitClear(e.tick(), raw)
+		case c.Typ == "json":
+			rec.Op = "JDel(whole)"
+			_, opErr = e.db.JDel(e.tick(), raw, []byte(""))
 		}
 		if opErr != nil {
 			rec.Err = opErr.Error()
@@ -623,7 +635,8 @@ func scenario(seed int64, policy string, idx int, emit func(e2eRec)) {
 			rec.Logical = append(rec.Logical, fmt.Sprintf("re-create %s failed: %v", t0, err))
 		} else {
 			want := map[string]string{"kv": H([]byte("v-fresh")), "hash": H([]byte("fresh")) + "=" + H([]byte("vfresh")), "set": H([]byte("fresh")),
-				"zset": H([]byte("fresh")) + "@bff0000000000000", "list": H([]byte("fresh")), "bitmap": "1:10000000"}[t0.Typ]
+				"zset": H([]byte("fresh")) + "@bff0000000000000", "list": H([]byte("fresh")), "bitmap": "1:10000000",
+				"json": `{"m":"6672657368","n":1}`}[t0.Typ]
 			if got := e.logical(t0); got != want {
 				rec.Logical = append(rec.Logical, fmt.Sprintf("after %s and re-creating %s with one fresh member it reads %s, want %s (members of the cleared collection resurfaced)", rec.Op, t0, got, want))
 			}
@@ -889,7 +902,7 @@ func isMetaKey(k string) bool {
 		return false
 	}
 	switch k[0] {
-	case rr.KVType, rr.HSizeType, rr.LMetaType, rr.ZSizeType, rr.SSizeType, rr.BitmapMetaType:
+	case rr.KVType, rr.HSizeType, rr.LMetaType, rr.ZSizeType, rr.SSizeType, rr.BitmapMetaType, rr.JSONType:
 		return true
 	}
 	return false
